@@ -128,14 +128,23 @@ def gen_seq(rng, n, steps, pi_mode=None):
     return dict(n=n, steps=steps, om=om, de=de, ph=ph, U=U, dt=rng.choice([10.0, 20.0]))
 
 
+JUMPS = {  # jump operators that are covariant under V = tensor diag(1, e^{i theta}) (V L V^dag = phase * L): the gauge symmetry survives
+    "relaxation": lambda g: [[0.0, math.sqrt(g)], [0.0, 0.0]],          # sqrt(g) |g><r|
+    "dephasing": lambda g: [[math.sqrt(g / 2), 0.0], [0.0, -math.sqrt(g / 2)]],
+    "n-dephasing": lambda g: [[0.0, 0.0], [0.0, math.sqrt(g)]],
+    "pumping": lambda g: [[0.0, 0.0], [math.sqrt(g), 0.0]],            # sqrt(g) |r><g|
+}
+
+
 def run(backend, case, ph):
-    """occupation, correlation matrix, energy at the final time"""
+    """occupation, correlation matrix, energy at the final time (`case["jumps"]`: Lindblad noise -> density-matrix path of emu-sv)"""
     np, torch, tio, compat = _imports()
     import pulser.backend as pb
     tt = [case["dt"] * k for k in range(case["steps"] + 1)]
     # float64 tensors: `torch.as_tensor` of a Python list is float32, which would round pi to 3.14159274 (sin = -8.7e-8)
     f64 = lambda x: torch.tensor(x, dtype=torch.float64)
-    data = compat.make_sequence_data(f64(case["om"]), f64(case["de"]), f64(ph), f64(case["U"]), tt)
+    lind = [torch.tensor(JUMPS[name](g), dtype=torch.complex128) for name, g in case.get("jumps", [])]
+    data = compat.make_sequence_data(f64(case["om"]), f64(case["de"]), f64(ph), f64(case["U"]), tt, lindblad_ops=lind)
     ev = [1.0]
     obs = [pb.Occupation(evaluation_times=ev), pb.CorrelationMatrix(evaluation_times=ev), pb.Energy(evaluation_times=ev)]
     if backend == "sv":
@@ -211,6 +220,40 @@ def e2e(rep: Report, rng, count: int, with_mps: bool) -> None:
             rep.fail(f"emu-{backend} run raised {type(e).__name__}: {e}", dict(kind="raise", backend=backend, **case), klass=None)
     rep.extra["e2e_offset_max_diff"] = {k: max(v, rep.extra.get("e2e_offset_max_diff", {}).get(k, 0.0)) for k, v in worst.items()}
     rep.extra["negation_changes_results_by_up_to"] = max(demo, rep.extra.get("negation_changes_results_by_up_to", 0.0))
+
+
+def e2e_noisy(rep: Report, rng, count: int) -> None:
+    """the same metamorphic pairs on the noisy (density-matrix) path of emu-sv: jump operators from a small gauge-covariant set,
+    base phases with exact zeros next to non-zero ones"""
+    worst = 0.0
+    for i in range(count):
+        n = rng.randint(2, 3)
+        case = gen_seq(rng, n, rng.randint(2, 4), pi_mode=[None, None, "atoms"][i % 3])
+        if i % 3 != 2:                                   # exact zeros mixed with non-zero phases on different atoms
+            for row in case["ph"]:
+                k = rng.randrange(n)
+                row[k] = 0.0
+                row[(k + 1) % n] = rng.uniform(0.3, 3.0)
+        case["jumps"] = [(name, rng.uniform(0.05, 0.6)) for name in rng.sample(sorted(JUMPS), rng.randint(1, 3))]
+        th = rng.uniform(-3, 3)
+        rep.case(key=("e2e-noisy", i), nontrivial=True, trace=False)
+        rep.hist("e2e_backend", "sv-lindblad")
+        try:
+            base = run("sv", case, case["ph"])
+            d = dist(run("sv", case, [[p + th for p in row] for row in case["ph"]]), base)
+            worst = max(worst, d)
+            if d > TOL_SV:
+                rep.fail(f"emu-sv with Lindblad noise {[j for j, _ in case['jumps']]}: results change by {d:.3e} > {TOL_SV:.0e} when "
+                         f"{th:+.3f} is added to all phases", dict(kind="offset", backend="sv", theta=th, **case))
+            c0 = rng.uniform(-3, 3)
+            d = dist(run("sv", case, [[-c0] * n for _ in range(case["steps"])]), run("sv", case, [[c0] * n for _ in range(case["steps"])]))
+            worst = max(worst, d)
+            if d > TOL_SV:
+                rep.fail(f"emu-sv with Lindblad noise: results change by {d:.3e} > {TOL_SV:.0e} when a constant phase {c0:+.3f} is negated",
+                         dict(kind="neg-const", backend="sv", phi0=c0, **case))
+        except Exception as e:
+            rep.fail(f"noisy emu-sv run raised {type(e).__name__}: {e}", dict(kind="raise", backend="sv", **case), klass=None)
+    rep.extra["e2e_noisy_max_diff"] = max(worst, rep.extra.get("e2e_noisy_max_diff", 0.0))
 
 
 # ------------------------------------------------------------------ through real Pulser objects
@@ -408,7 +451,9 @@ def check(rep: Report, tier: str, seed: int) -> None:
     torch.manual_seed(seed)
     rep.rule = ("one PRNG; Hamiltonian level: gaussian vectors, n=1..8, random real drives, phases and offsets; end to end: "
                 "hand-built SequenceData, 1-6 atoms (emu-sv) / 2-5 (emu-mps, precision 1e-8, no reordering), 2-6 steps of 10/20 ns, "
-                "per-atom or global time-dependent phases, amplitudes incl. zeros, offsets in (-3,3); real pulser Registers of 2-5 "
+                "per-atom or global time-dependent phases, amplitudes incl. zeros, offsets in (-3,3); the same pairs on emu-sv with Lindblad noise "
+                "(2-3 atoms, 1-3 jump operators out of relaxation / dephasing / n-dephasing / pumping, exact-zero phases next to non-zero "
+                "ones); real pulser Registers of 2-5 "
                 "atoms (min distance 5 um), 1-3 constant pulses, random rotation/translation/reflection, abstract-repr round trip; per-atom drives "
                 "(DMM detuning map with distinct weights + a local channel) on one 11-12 atom register with shuffled int / string / "
                 "mixed-length ids and two small registers with non-sorted ids: original vs round trip vs relabelled, drive columns vs samples")
@@ -428,6 +473,7 @@ def check(rep: Report, tier: str, seed: int) -> None:
     quick = tier == "quick"
     ham_level(rep, seeded(seed * 7919 + 29), 60 if quick else 1000)
     e2e(rep, seeded(seed * 104729 + 29), 9 if quick else 150, True)
+    e2e_noisy(rep, seeded(seed * 32452843 + 29), 6 if quick else 60)
     pulser_meta(rep, seeded(seed * 1299709 + 29), 3 if quick else 40)
     pulser_ids(rep, seeded(seed * 15485863 + 29), 3 if quick else 30)
     extra.merge()
@@ -450,7 +496,7 @@ def replay(rep: Report, path: str) -> int:
         d = f["data"]
         k = d.get("kind")
         if k in ("offset", "neg-const", "neg-ref"):
-            case = {x: d[x] for x in ("n", "steps", "om", "de", "ph", "U", "dt")}
+            case = {x: d[x] for x in ("n", "steps", "om", "de", "ph", "U", "dt", "jumps") if x in d}
             b = d["backend"]
             tol = TOL_SV if b == "sv" else TOL_MPS
             if k == "offset":
